@@ -338,10 +338,14 @@ class MultitaskMultivariateNormal(MultivariateNormal):
                 num_rows = self._output_shape[-1]
                 num_cols = self._output_shape[-2]
 
+            # Negative indices count from the end; the flattened index arithmetic below needs them non-negative
+            if isinstance(row_idx, int) or torch.is_tensor(row_idx):
+                row_idx = _normalize_index(row_idx, num_rows)
+            if isinstance(col_idx, int) or torch.is_tensor(col_idx):
+                col_idx = _normalize_index(col_idx, num_cols)
+
             if isinstance(row_idx, int) and isinstance(col_idx, int):
                 # Single sample with single task
-                row_idx = _normalize_index(row_idx, num_rows)
-                col_idx = _normalize_index(col_idx, num_cols)
                 new_cov = DiagLinearOperator(
                     self.lazy_covariance_matrix.diagonal()[batch_idx + (row_idx * num_cols + col_idx,)]
                 )
@@ -403,7 +407,9 @@ class MultitaskMultivariateNormal(MultivariateNormal):
         return f"MultitaskMultivariateNormal(mean shape: {self._output_shape})"
 
 
-def _normalize_index(i: int, dim_size: int) -> int:
+def _normalize_index(i, dim_size: int):
+    if torch.is_tensor(i):
+        return torch.where(i < 0, i + dim_size, i)
     if i < 0:
         return dim_size + i
     else:
